@@ -8,7 +8,7 @@ INV = ["TypeOK", "DropSound", "WindowComplete", "EvictComplete", "NoLeak", "Expo
 
 def consts(**kw):
     c = dict(Cids='{"a","b","c","d"}', Peers='{"ok","no"}', Allowed='{"ok"}', AddrClasses='{"pub+priv","priv"}', K=2, MaxOps=6,
-             MaxCloses=2, EXPORT=True, FIXED=True)
+             MaxCloses=2, EXPORT=True, FIXED=True, PubKinds="{}")
     c.update(kw)
     return c
 
@@ -69,6 +69,15 @@ def run(tier, seed, replay=None, pid="C09"):
                           AddrClasses='{"pub+priv","priv","loop+pub"}'), seed, 12 if tier == "quick" else 200, 2000, "c09sim")
     ck.add_tlc("Receiver/simulate-K64", sim, "random histories over 80 CIDs, seed %d" % seed)
     do_replay(ck, binary, "simulate-K64", sim, "receiver")
+    # announcements arriving over pubsub (two connected libp2p hosts, gossipsub): sent by the publisher itself, re-published by
+    # another host on behalf of the original publisher, re-published by the receiver's own host
+    pc = consts(K=64, Cids='{"a","b","c"}', MaxOps=8, MaxCloses=1, AddrClasses='{"pub+priv","priv"}', PubKinds='{"plain","relayed","self"}')
+    psb = vlib.tlc("Receiver", ("psb.cfg", vlib.cfg_text(dict(pc, MaxOps=5 if tier == "quick" else 6), INV, view="view")), timeout=3000, tag="c09psb")
+    ck.add_tlc("Receiver/pubsub-bfs", psb, "direct and pubsub announcements (plain / relayed / own re-publication), watcher blocked on the out channel")
+    do_replay(ck, binary, "pubsub-bfs", psb, "receiver")
+    pss = simulate(pc, seed + 2, 500 if tier == "quick" else 20000, 100, "c09pss")
+    ck.add_tlc("Receiver/pubsub-simulate", pss, "random histories mixing direct and pubsub announcements, seed %d" % (seed + 2))
+    do_replay(ck, binary, "pubsub-simulate", pss, "receiver")
     # eviction-heavy random histories for the filter alone: K=8, 12 CIDs
     sim2 = simulate(consts(K=8, Cids=many_cids(12), MaxOps=300, MaxCloses=0, AddrClasses='{"pub+priv"}', Peers='{"ok"}'), seed + 1,
                     50 if tier == "quick" else 2000, 2000, "c09sim8")
@@ -76,8 +85,10 @@ def run(tier, seed, replay=None, pid="C09"):
     do_replay(ck, binary, "simulate-K8", sim2, "lru")
     ck.cov["rule"] = ("one behaviour per terminal state (BFS) or per simulated run; 'lru' behaviours run on the real stringLRU with the model's capacity "
                       "(filter content compared after every operation), 'receiver' behaviours on a real announce.Receiver (results of Direct/Next/"
-                      "UncacheCid/Close, delivered CID/peer/addresses, blocking and wake-ups); non-trivial = contains a duplicate drop, a close or a blocked call")
+                      "UncacheCid/Close, delivered CID/peer/addresses, blocking and wake-ups; behaviours with pubsub steps run on a Receiver with a libp2p host on a gossipsub topic shared "
+                      "with a second, connected host that publishes the announcements -- for itself, on behalf of an original publisher, or (from the receiver's own host) "
+                      "as an own re-publication -- and the harness waits for the watcher goroutine to have handled each message before the next step); non-trivial = contains a duplicate drop, a close or a blocked call")
     ck.cov["exhaustive"] = True
-    ck.assumptions += ["pubsub delivery path (OrigPeer attribution, self-republication) is not exercised: the harness runs the receiver without a libp2p host",
+    ck.assumptions += ["pubsub announcements come from one remote host over a two-host gossipsub mesh on loopback (relay and publisher are the same remote host)",
                        "where un-cache operations on other CIDs make the property's wording ambiguous (model exp = either) both outcomes are accepted"]
     return ck
